@@ -57,7 +57,7 @@ def run(ctx):
                 shuffled = list(cons)
                 r.shuffle(shuffled)
                 try:
-                    rng = rc(constraints=shuffled)
+                    rng = rc(constraints=tuple(shuffled) if ci % 2 else shuffled)
                 except Exception as e:  # noqa
                     violations.append(dict(kind="counterexample", stage="search", what=f"building a well-formed range raised {e!r}",
                                            inputs=dict(scheme=s.name, constraints=[str(c) for c in shuffled])))
